@@ -17,7 +17,8 @@ FUNCS = [('len_', len), ('sum_', sum), ('min_', min), ('max_', max), ('abs_', ab
 def leaves(family):
     if family == 'this':
         return [('leaf', 'this.a', lambda e: e['a'], True), ('leaf', 'this["b"]', lambda e: e['b'], True),
-                ('leaf', 'this.l[1]', lambda e: e['l'][1], True), ('leaf', 'this.l[-1]', lambda e: e['l'][-1], True)]
+                ('leaf', 'this.l[1]', lambda e: e['l'][1], True), ('leaf', 'this.l[-1]', lambda e: e['l'][-1], True),
+                ('leaf', 'this.l[0]', lambda e: e['l'][0], True)]
     return [('leaf', 'obj_', lambda e: e, True), ('leaf', 'obj_', lambda e: e, True)]
 
 
@@ -271,6 +272,36 @@ def run(tier, seed):
             if family == 'this':
                 for env in envs[:3]:
                     cases.append(dict(src=src, op='eval', kw=env))
+    # constants that are containers, None or floats (no literal in the model's printer: oracle only), on either side of an operator;
+    # item paths whose keys are falsy (0, False, '', b'') at any position
+    oracle_only = set()
+    x = leaves('this')[0]
+    cenvs = [dict(a=(5,), b=1, l=[1]), dict(a=[1], b=2, l=[]), dict(a=2, b=0, l=[0]), dict(a=(1, 2), b=1, l=[1]), dict(a=None, b=1, l=[1]), dict(a=(), b=3, l=[2]), dict(a=2.5, b=1, l=[1])]
+    for c in [(5,), (1, 2), (), [1], [], [1, 2], None, 2.5, {'k': 1}, ((1,),), (None,), ('%s',), ('a', 'b')]:
+        for sym in ('==', '!=', '+', '*', '<', '>=', '&', '|'):
+            for t in (('bin', sym, x, const_leaf(c)), ('bin', sym, const_leaf(c), x), ('un', '-', ('bin', sym, x, const_leaf(c))),
+                      ('bin', '+', ('bin', sym, const_leaf(c), x), const_leaf(c))):
+                src = src_of(t)
+                if src not in TREES:
+                    TREES[src] = t
+                    oracle_only.add(src)
+                    acc.check('expr', src, envs=cenvs, family='this')
+    penvs = [{'l': [7, 8], '': 3, 0: 4, False: 4, b'': 5, 'm': {'': [9], 0: {'': 6}, 'k': 1}, 'z': 0}]
+    for psrc, nat in [('this.l[0]', lambda e: e['l'][0]), ('this[""]', lambda e: e['']), ('this[0]', lambda e: e[0]), ('this[False]', lambda e: e[False]), ('this[b""]', lambda e: e[b'']),
+                      ('this.m[""][0]', lambda e: e['m'][''][0]), ('this.m[0][""]', lambda e: e['m'][0]['']), ('this.m[0][""] + this.l[0]', lambda e: e['m'][0][''] + e['l'][0]),
+                      ('this.l[this.z]', None), ('this.m.k', lambda e: e['m']['k']), ('this.l[0] * this[0] - this[""]', lambda e: e['l'][0] * e[0] - e[''])]:
+        if nat is None:
+            continue
+        t = ('leaf', psrc, nat, True)
+        if psrc not in TREES:
+            TREES[psrc] = t
+            oracle_only.add(psrc)
+            acc.check('expr', psrc, envs=penvs, family='this')
+    for psrc, penv, nat in [('obj_[0]', [5, 6], lambda e: e[0]), ('obj_[0][0]', [[5], 6], lambda e: e[0][0]), ('obj_[""]', {'': 1}, lambda e: e['']), ('-obj_[0] + obj_[1]', [5, 6], lambda e: -e[0] + e[1])]:
+        if psrc not in TREES:
+            TREES[psrc] = ('leaf', psrc, nat, True)
+            oracle_only.add(psrc)
+            acc.check('expr', psrc, envs=[penv], family='obj_')
     # nested scopes: this._.c through real Structs (parse-based)
     for src in ['Struct("c"/Computed(7), "s"/Struct("v"/Computed((this._.c + 1) * -this._.c)))',
                 'Struct("c"/Byte, "s"/Struct("d"/Byte, "v"/Computed((-this._.c) ** this.d)), "w"/Computed(~this.s.v | this.c & 1))']:
@@ -281,6 +312,8 @@ def run(tier, seed):
     # on what repr prints and on free-form expression text (random parenthesisation, unary and comparison mixes)
     pcases = []
     for src in list(TREES):
+        if src in oracle_only:
+            continue
         pcases.append(dict(src=src, op='expr_print'))
         try:
             e = eval(src, dict(NS))
